@@ -110,6 +110,7 @@ mod h {
             #[kani::unwind(9)]
             #[kani::stub(std::backtrace::Backtrace::capture, bt_disabled)]
             #[kani::stub(alloc::fmt::format, fmt_stub)]
+            #[kani::stub(<sylvia::cw_std::Addr as core::fmt::Display>::fmt, support::stubs::addr_fmt_stub)]
             fn $name() {
                 // The address byte is CONCRETE here: reading back the CONTENT of a symbolic address string
                 // after it went through the helper and `build()` does not finish (measured: > 300 s, while
@@ -150,8 +151,8 @@ mod h {
     exec_helper!(exec_dyn_ia_one, false, dyn Ifa<Error = CtErr>, |eb, a, b, x| eb.ia_one(a, b), H_IA_ONE, [a as u64, b as u64, 0]);
     exec_helper!(exec_dyn_ia_two, false, dyn Ifa<Error = CtErr>, |eb, a, b, x| eb.ia_two(a, b), H_IA_TWO, [a as u64, b as u64, 0]);
     exec_helper!(exec_dyn_ib_x, true, dyn Ifb<Error = CtErr>, |eb, a, b, x| eb.ib_x(a & 1 == 1), H_IB_X, [(a & 1) as u64, 0, 0]);
-    exec_helper!(exec_ct_as_ifa, false, Ct, |eb, a, b, x| IfaExecutor::ia_two(eb, a, b), H_IA_TWO, [a as u64, b as u64, 0]);
-    exec_helper!(exec_ct_as_ifb, false, Ct, |eb, a, b, x| IfbExecutor::ib_x(eb, a & 1 == 1), H_IB_X, [(a & 1) as u64, 0, 0]);
+    exec_helper!(exec_ct_as_ifa, true, Ct, |eb, a, b, x| IfaExecutor::ia_two(eb, a, b), H_IA_TWO, [a as u64, b as u64, 0]);
+    exec_helper!(exec_ct_as_ifb, true, Ct, |eb, a, b, x| IfbExecutor::ib_x(eb, a & 1 == 1), H_IB_X, [(a & 1) as u64, 0, 0]);
 
     /// Remote -> ExecutorBuilder keeps the (symbolic) address and starts without funds; owned and
     /// borrowed handles.
